@@ -10,18 +10,29 @@
 (*    Refinement: the impl-shaped result agrees with the declarative one (Dev_h41 = FALSE: the    *)
 (*    code as it is since fix: 4d9b221), except exactly the repaired deviation h41 (time backend: *)
 (*    only the full form parses) when it is seeded back with Dev_h41 = TRUE (MC_Dates_seeded).    *)
+(*  - PickDirect: the year-boundary instants 0001-01-01T00:00:00Z and 9999-12-31T23:59:59Z x every  *)
+(*    offset (local years 0000 and 10000) and every pair whose wall clock cannot be written with    *)
+(*    four year digits run the function forms of the same steps in one action (FunctionForm ties    *)
+(*    the two together on the stepped cases).  Deviations of the code as it is, asserted exactly:   *)
+(*    Dev_y10k (chrono writes "+10000..." for a local year 10000 - not a date string),              *)
+(*    Dev_gmt (jiff's date-only attempt needs a "GMT" entry in the host's zone database: env).      *)
 (* With Emit every case is printed once as a REPLAY line (expected strings and parse results     *)
 (* computed by the declarative layer).                                                           *)
 EXTENDS Dates, TLC, Json
 
-CONSTANTS Thorough, Dev_h41, Emit
+CONSTANTS Thorough, Dev_h41, Dev_gmt, Dev_y10k, Emit,
+          Tiny      \* TRUE: a handful of offsets only - the run on which TLC's action coverage is collected (-coverage
+                    \* makes TLC re-evaluate the case sets over and over: 70 s of start-up on the quick case set)
 
-VARIABLES pc, cs, b, buf, idx, fi, stripped, att, res, cy
-vars == <<pc, cs, b, buf, idx, fi, stripped, att, res, cy>>
+VARIABLES pc, cs, b, buf, idx, fi, stripped, att, res, cy, env
+vars == <<pc, cs, b, buf, idx, fi, stripped, att, res, cy, env>>
+
+\* the host's time zone database as far as the code can tell: "host" has an entry GMT, "nogmt" has none
+Envs == {"host", "nogmt"}
 
 -----------------------------------------------------------------------------
 (* the case set *)
-AllOffsets == -MaxOff..MaxOff                         \* 2879 offsets
+AllOffsets == IF Tiny THEN {-840, -61, -1, 0, 1, 59, 840} ELSE -MaxOff..MaxOff      \* 2879 offsets
 
 SweepInstants ==                                       \* <<y, m, d, second of day>>
     IF Thorough
@@ -37,18 +48,32 @@ BoundaryDates ==
                \cup {<<y, 2, 29>> : y \in {4, 400, 1600, 2024, 9996}}
                \cup {<<y, 12, 31>> : y \in {1, 99, 100, 1899, 1999, 2000, 9998}}
           ELSE {})
-BoundarySods == IF Thorough THEN {0, 1, 3599, 43200, 86340, 86399} ELSE {0, 11696, 86399}
+BoundarySods == IF Tiny THEN {0, 86399} ELSE IF Thorough THEN {0, 1, 3599, 43200, 86340, 86399} ELSE {0, 11696, 86399}
 BoundaryOffsets ==
+    IF Tiny THEN {0, 1, -59, 840} ELSE
     {0, 1, -1, 30, -30, 59, -59, 60, -60, 330, -210, 840, -840, 1439, -1439}
     \cup (IF Thorough THEN {61, -61, 345, -345, 720, -720, 1380, -1380, 1438, -1438} ELSE {})
 
-Case(t, s, o, sw) == [day |-> DaysFromCivil(t[1], t[2], t[3]), sod |-> s, off |-> o, sweep |-> sw]
+\* first and last second of the domain: every offset (negative ones give local year 0000, positive ones 10000)
+EdgeInstants == {<<1, 1, 1, 0>>, <<9999, 12, 31, 86399>>}
+\* thorough: every offset; quick: every quarter hour, every offset within +-61 minutes, and the extremes
+EdgeOffsets == IF Thorough THEN AllOffsets
+               ELSE {o \in AllOffsets : o % 15 = 0 \/ Abs(o) <= 61 \/ Abs(o) >= MaxOff - 1}
+
+Case(t, s, o, sw, ed) == [day |-> DaysFromCivil(t[1], t[2], t[3]), sod |-> s, off |-> o, sweep |-> sw, edge |-> ed]
 Inst(c) == [day |-> c.day, sod |-> c.sod]
+Expr(c) == Expressible(Inst(c), c.off)
 
 Cases ==
-    {c \in {Case(t, t[4], o, TRUE) : t \in SweepInstants, o \in AllOffsets}
-           \cup {Case(t, s, o, FALSE) : t \in BoundaryDates, s \in BoundarySods, o \in BoundaryOffsets} :
+    {c \in {Case(t, t[4], o, TRUE, FALSE) : t \in SweepInstants, o \in AllOffsets}
+           \cup {Case(t, t[4], o, TRUE, TRUE) : t \in EdgeInstants, o \in EdgeOffsets}
+           \cup {Case(t, s, o, FALSE, FALSE) : t \in BoundaryDates, s \in BoundarySods, o \in BoundaryOffsets} :
        InDomain(Inst(c), c.off)}
+\* stepped through the actions of the code: the boundary cases, and (thorough) the offset sweeps at ordinary instants;
+\* in one step (function forms): the edge sweeps, pairs without a date string, and (quick) the ordinary sweep
+Stepped(c)  == ~c.edge /\ Expr(c) /\ (Thorough \/ ~c.sweep)
+StepCases   == {c \in Cases : Stepped(c)}
+DirectCases == {c \in Cases : ~Stepped(c)}       \* (not Cases \ StepCases: TLC would test membership by enumeration)
 
 CalYears == IF Thorough THEN 1..9999
             ELSE {1, 2, 3, 4, 5, 99, 100, 101, 399, 400, 401, 999, 1000, 1582, 1899, 1900, 1901, 1969, 1970, 1999,
@@ -58,7 +83,7 @@ CalYears == IF Thorough THEN 1..9999
 (* the strings of the forms, as the conversions produce them; sweep cases use the forms that   *)
 (* depend on the offset (quick: the full form only; min with offsets comes from the boundary set) *)
 FormNames == <<"full", "min", "fullZ", "minZ", "date">>
-NForms(c) == IF c.sweep THEN (IF Thorough THEN 2 ELSE 1) ELSE 5
+NForms(c) == IF ~Expr(c) THEN 0 ELSE IF c.edge THEN 2 ELSE IF c.sweep THEN (IF Thorough THEN 2 ELSE 1) ELSE 5
 Input(c, k, produced) ==
     CASE k = 1 -> produced                      \* the string the backend itself produced
       [] k = 2 -> FmtMin(Inst(c), c.off)
@@ -67,24 +92,46 @@ Input(c, k, produced) ==
       [] k = 5 -> FmtDate(Inst(c))
 
 Init ==
-    /\ pc = "idle" /\ cs = [day |-> 0, sod |-> 0, off |-> 0, sweep |-> FALSE] /\ b = "none"
-    /\ buf = <<>> /\ idx = 0 /\ fi = 0 /\ stripped = <<>> /\ att = 0 /\ res = <<>> /\ cy = 0
+    /\ pc = "idle" /\ cs = [day |-> 0, sod |-> 0, off |-> 0, sweep |-> FALSE, edge |-> FALSE] /\ b = "none"
+    /\ buf = <<>> /\ idx = 0 /\ fi = 0 /\ stripped = <<>> /\ att = 0 /\ res = <<>> /\ cy = 0 /\ env = "host"
 
 CalYear ==
     /\ pc = "idle"
     /\ \E y \in CalYears : cy' = y
     /\ pc' = "cal"
-    /\ UNCHANGED <<cs, b, buf, idx, fi, stripped, att, res>>
+    /\ UNCHANGED <<cs, b, buf, idx, fi, stripped, att, res, env>>
+
+\* the environment dimension is explored on the boundary cases at midnight (every form), in the model for the one
+\* backend whose steps consult the zone database (the replay parses these cases with every reader in every environment)
+EnvsOf(c) == IF ~c.sweep /\ c.sod = 0 THEN Envs ELSE {"host"}
 
 \* Object::from(date): strftime (chrono, jiff) or the format description (time)
 Pick ==
     /\ pc = "idle"
-    /\ \E c \in Cases, bk \in Backends :
-          /\ cs' = c /\ b' = bk
+    /\ \E c \in StepCases, bk \in Backends :
+          /\ cs' = c /\ b' = bk /\ env' \in (IF bk = "jiff" THEN EnvsOf(c) ELSE {"host"})
           /\ IF bk = "time"
              THEN buf' = ImplFmtTime(Inst(c), c.off) /\ idx' = 0 /\ pc' = "formatted"
              ELSE buf' = ImplRawFmt(Inst(c), c.off) /\ idx' = Len(buf') /\ pc' = "convert"
     /\ UNCHANGED <<fi, stripped, att, res, cy>>
+
+ImplFmtB(bk, i, off) == IF bk = "chrono" THEN ImplFmtChronoLocal(i, off, Dev_y10k) ELSE ImplFmt(bk, i, off)
+
+\* the same conversions in one step (function forms).  A wall clock in year 10000 exists as a chrono value only:
+\* jiff's and time's types cannot hold it.
+PickDirect ==
+    /\ pc = "idle"
+    /\ \E c \in DirectCases : \E bk \in (IF Expr(c) THEN Backends ELSE {"chrono"}) : cs' = c /\ b' = bk
+    /\ pc' = "direct"
+    /\ UNCHANGED <<buf, idx, fi, stripped, att, res, cy, env>>
+
+Direct ==
+    /\ pc = "direct"
+    /\ buf' = ImplFmtB(b, Inst(cs), cs.off)
+    /\ fi' = NForms(cs)
+    /\ res' = [k \in 1..NForms(cs) |-> ImplParseEnv(b, Input(cs, k, buf'), Dev_h41, Dev_gmt, TRUE)]
+    /\ pc' = "done"
+    /\ UNCHANGED <<cs, b, idx, stripped, att, cy, env>>
 
 \* one iteration of `while let Some(last) = bytes[..index].last_mut()`
 ConvertStep ==
@@ -92,30 +139,30 @@ ConvertStep ==
     /\ IF idx = 0 THEN pc' = "formatted" /\ UNCHANGED <<buf, idx>>
        ELSE IF buf[idx] = cColon THEN buf' = [buf EXCEPT ![idx] = cApos] /\ pc' = "formatted" /\ UNCHANGED idx
        ELSE idx' = idx - 1 /\ UNCHANGED <<buf, pc>>
-    /\ UNCHANGED <<cs, b, fi, stripped, att, res, cy>>
+    /\ UNCHANGED <<cs, b, fi, stripped, att, res, cy, env>>
 
 \* as_datetime(): datetime_string filters the bytes of the next form
 StripStep ==
     /\ pc \in {"formatted", "parsed"} /\ fi < NForms(cs)
     /\ fi' = fi + 1 /\ stripped' = Strip(Input(cs, fi + 1, buf)) /\ att' = 1 /\ pc' = "try"
-    /\ UNCHANGED <<cs, b, buf, idx, res, cy>>
+    /\ UNCHANGED <<cs, b, buf, idx, res, cy, env>>
 
 \* one link of the or_else chain
 Attempt ==
     /\ pc = "try"
     /\ LET as == Attempts(b, Dev_h41)
-           r  == RunFormat(as[att], stripped, b = "chrono")
+           r  == RunAttempt(b, as[att], stripped, Dev_gmt, env = "host")
        IN IF r.ok THEN res' = Append(res, r) /\ pc' = "parsed" /\ UNCHANGED att
           ELSE IF att < Len(as) THEN att' = att + 1 /\ UNCHANGED <<res, pc>>
           ELSE res' = Append(res, ImplFail) /\ pc' = "parsed" /\ UNCHANGED att
-    /\ UNCHANGED <<cs, b, buf, idx, fi, stripped, cy>>
+    /\ UNCHANGED <<cs, b, buf, idx, fi, stripped, cy, env>>
 
 Done ==
     /\ pc = "parsed" /\ fi = NForms(cs)
     /\ pc' = "done"
-    /\ UNCHANGED <<cs, b, buf, idx, fi, stripped, att, res, cy>>
+    /\ UNCHANGED <<cs, b, buf, idx, fi, stripped, att, res, cy, env>>
 
-Next == CalYear \/ Pick \/ ConvertStep \/ StripStep \/ Attempt \/ Done
+Next == CalYear \/ Pick \/ PickDirect \/ Direct \/ ConvertStep \/ StripStep \/ Attempt \/ Done
 Spec == Init /\ [][Next]_vars
 
 -----------------------------------------------------------------------------
@@ -140,20 +187,33 @@ RoundTrip ==
         LET i == Inst(cs)   off == cs.off
             pf == Parse(Fmt(i, off))   pz == Parse(FmtUtc(i))   pm == Parse(FmtMin(i, off))
             pmz == Parse(FmtMinZ(i))   pd == Parse(FmtDate(i))
-        IN /\ P(pf) = Good(i, off) /\ pf.form = "full" /\ pf.indom /\ Len(Fmt(i, off)) = 23
+        IN /\ Expr(cs) => /\ P(pf) = Good(i, off) /\ pf.form = "full" /\ pf.indom /\ Len(Fmt(i, off)) = 23
+                          /\ P(pm) = Good(Minute(i), off) /\ pm.form = "min"
+                          /\ Fmt(i, off)[17] = (IF off < 0 THEN cMinus ELSE cPlus)
+           \* the only pairs of the domain without a date string: year 9999, carried into year 10000 by the offset
+           /\ ~Expr(cs) => off > 0 /\ CivilFromDays(i.day) = [y |-> 9999, m |-> 12, d |-> 31]
+                           /\ LocalOf(i, off).day = MaxDay + 1
            /\ P(pz) = Good(i, 0) /\ pz.form = "fullZ"
-           /\ P(pm) = Good(Minute(i), off) /\ pm.form = "min"
            /\ P(pmz) = Good(Minute(i), 0) /\ pmz.form = "minZ"
            /\ P(pd) = Good([day |-> i.day, sod |-> 0], 0) /\ pd.form = "date"
            /\ Fmt(i, 0)[17] = cPlus                    \* offset zero is written +00'00'
-           /\ Fmt(i, off)[17] = (IF off < 0 THEN cMinus ELSE cPlus)
 
 \* impl-shaped refines declarative
 \* (buf does not change after pc = "formatted")
 FmtRefines ==
     pc = "formatted" => buf = Fmt(Inst(cs), cs.off) /\ ImplFmtUtc(Inst(cs)) = FmtUtc(Inst(cs))
 
-Deviates(bk, k) == Dev_h41 /\ bk = "time" /\ k >= 2       \* h41, exactly: every form but the full one
+\* ... also for the cases converted in one step; a pair that has no date string: as the code is (Dev_y10k) the result
+\* is not a date string at all, as repaired it is the date string of the same instant in UTC
+FmtRefinesDone ==
+    pc = "done" =>
+        IF Expr(cs) THEN buf = Fmt(Inst(cs), cs.off)
+        ELSE LET p == Parse(buf)
+             IN IF Dev_y10k THEN ~p.ok
+                ELSE p.ok /\ p.day = cs.day /\ p.sod = cs.sod /\ buf = Fmt(Inst(cs), 0)
+
+Deviates(bk, k) == \/ Dev_h41 /\ bk = "time" /\ k >= 2       \* h41, exactly: every form but the full one
+                   \/ Dev_gmt /\ bk = "jiff" /\ k = 5 /\ env = "nogmt"   \* date-only needs the GMT entry
 ParseRefines ==
     pc = "done" =>
         \A k \in 1..Len(res) :
@@ -162,16 +222,18 @@ ParseRefines ==
                /\ IF Deviates(b, k) THEN ~res[k].ok ELSE Agrees(b # "chrono", res[k], want)
 
 FunctionForm ==
-    pc = "done" => /\ buf = ImplFmt(b, Inst(cs), cs.off)
+    pc = "done" => /\ buf = ImplFmtB(b, Inst(cs), cs.off)
                    /\ Len(res) = NForms(cs)
-                   /\ \A k \in 1..Len(res) : res[k] = ImplParse(b, Input(cs, k, buf), Dev_h41)
+                   /\ \A k \in 1..Len(res) : res[k] = ImplParseEnv(b, Input(cs, k, buf), Dev_h41, Dev_gmt, env = "host")
 
 Terminates == idx \in 0..23 /\ att \in 0..5 /\ fi \in 0..5 /\ Len(res) <= fi
 
 \* predictions of the impl-shaped layer for the replay (drift measurement only)
 \* (the replay always carries full, min and fullZ — every string a conversion produces — and all five for boundary cases)
-EmitForms(c) == IF c.sweep THEN 3 ELSE 5
-ImplOk(bk, c) == [k \in 1..EmitForms(c) |-> ImplParse(bk, Input(c, k, Fmt(Inst(c), c.off)), Dev_h41).ok]
+EmitForms(c) == IF ~Expr(c) THEN 0 ELSE IF c.sweep THEN 3 ELSE 5
+ImplOk(bk, c, gmt) == [k \in 1..EmitForms(c) |->
+                         ImplParseEnv(bk, Input(c, k, Fmt(Inst(c), c.off)), Dev_h41, Dev_gmt, gmt).ok]
+ImplOks(c, gmt) == [chrono |-> ImplOk("chrono", c, gmt), jiff |-> ImplOk("jiff", c, gmt), time |-> ImplOk("time", c, gmt)]
 
 \* one literal of the replay case: the bytes, what they denote, and the class of the input
 Lit(s) == LET w == Parse(s)
@@ -179,13 +241,15 @@ Lit(s) == LET w == Parse(s)
               cls |-> <<w.form, OffClass(w.off), YearClass(Shift([day |-> w.day, sod |-> w.sod], w.off).day)>>]
 
 EmitInv ==
-    (Emit /\ pc = "done" /\ b = "chrono") =>
+    (Emit /\ pc = "done" /\ b = "chrono" /\ env = "host") =>
         LET i == Inst(cs)
         IN PrintT(<<"REPLAY", ToJson(
             [day |-> cs.day, sod |-> cs.sod, off |-> cs.off, sweep |-> cs.sweep,
-             \* lits[1].s = Fmt(i, off), lits[3].s = FmtUtc(i) (RoundTrip / FmtRefines), lits[2] the minute form, ...
+             edge |-> cs.edge, expr |-> Expr(cs), envs |-> (EnvsOf(cs) = Envs),
+             str |-> IF Expr(cs) THEN Fmt(i, cs.off) ELSE <<>>, utc |-> FmtUtc(i),
              cls_off |-> <<OffClass(cs.off), YearClass(LocalOf(i, cs.off).day)>>,
              cls_utc |-> <<"utc", YearClass(i.day)>>,
              lits |-> [k \in 1..EmitForms(cs) |-> Lit(Input(cs, k, Fmt(i, cs.off)))],
-             impl |-> [chrono |-> ImplOk("chrono", cs), jiff |-> ImplOk("jiff", cs), time |-> ImplOk("time", cs)]])>>)
+             impl |-> ImplOks(cs, TRUE),
+             impl_nogmt |-> IF EnvsOf(cs) = Envs THEN ImplOks(cs, FALSE) ELSE ImplOks(cs, TRUE)])>>)
 =============================================================================
